@@ -56,7 +56,11 @@ def systematic(g, N, positive=True):
         return
     T.no_validate = True      # log-domain inputs: validated separately below with plain reals
     idx = [sj.unlog(sj.obj(T.outs)[j]) for j in range(N)]
-    g.ok("exactly one uniform offset site", len(T.sites) == 1 and (T.sites[0].name or "").lower() == "uniform")
+    one = len(T.sites) == 1 and (T.sites[0].name or "").lower() == "uniform" and sj.obj(T.sites[0].outs[0]).shape == ()
+    g.ok("exactly one uniform offset site drawing ONE scalar offset shared by all strata (systematic, not stratified)", one,
+         str([(s.name, sj.obj(s.outs[0]).shape) for s in T.sites]))
+    if not one:
+        return
     site = T.sites[0]
     u = sj.obj(site.outs[0]).item()
     sargs, _ = gfi._site_args(site)
@@ -162,8 +166,9 @@ def resample_group(g, method, N):
     A = list(cons)
     for s in T.sites:
         if (s.name or "").lower() == "uniform":
-            u = sj.obj(s.outs[0]).item()
-            A += [u > 0, u < 1]
+            if method == "systematic":
+                g.ok(f"{method}, N={N}: one scalar offset shared by all strata", sj.obj(s.outs[0]).shape == (), str(sj.obj(s.outs[0]).shape))
+            A += [z3.And(u > 0, u < 1) for u in sj.terms(s.outs[0])]
         else:
             A += [z3.And(t >= 0, t < N) for t in sj.terms(s.outs[0])]
     g.assume(*A)
